@@ -128,6 +128,39 @@ Definition tree_check (rev : bool) (nodes : list tnode) (closed opened topen : p
   (if area2_paths tpaths =? area2_paths closed then [] else [(code_area, 0)]) ++
   (if multiset_eqb path_eqb topen opened then [] else [(code_open_differ, 0)]).
 
+(* ---------------------------------------------------------------- CheckPolytreeFullyContainsChildren (clipper.h)
+   details::PolyPath64ContainsChildren: for every child of a polygon node walk the child's vertices with a counter
+   (strictly inside the parent: -1, strictly outside: +1, on its boundary: unchanged); more than one vertex "in excess"
+   outside -> false; two in excess inside -> this child passes (break); then the child's own children.  The children of the
+   root are not tested against anything.  PointInPolygon enters through its specification (exact even-odd position with
+   respect to the single parent path, IsOutside for paths of fewer than 3 vertices, as the code does first). *)
+Inductive pip_result : Type := PipInside | PipOn | PipOutside.
+
+Definition pip_lib (poly : path) (v : pt) : pip_result :=
+  if (length poly <? 3)%nat then PipOutside
+  else if on_path poly v then PipOn
+  else if Z.odd (wn poly v) then PipInside else PipOutside.
+
+Fixpoint outside_scan (parent : path) (cnt : Z) (vs : list pt) : bool :=
+  match vs with
+  | [] => true
+  | v :: t =>
+    let c := match pip_lib parent v with
+             | PipInside => cnt - 1
+             | PipOutside => cnt + 1
+             | PipOn => cnt
+             end in
+    if 1 <? c then false else if c <? -1 then true else outside_scan parent c t
+  end.
+
+Definition fully_contains (nodes : list tnode) : bool :=
+  let ann := annotate 0 [] nodes in
+  forallb (fun e : Z * option Z * tnode =>
+             match snd (fst e) with
+             | Some j => outside_scan (node_path ann j) 0 (tn_path (snd e))
+             | None => true
+             end) ann.
+
 (* ---------------------------------------------------------------- sanity *)
 Definition sq (a b : Z) : path := [(a, a); (b, a); (b, b); (a, b)].
 
@@ -144,4 +177,17 @@ Proof. vm_compute. reflexivity. Qed.
 Example tree_bad_level :
   tree_check false [mkTnode 0 false (sq 0 100); mkTnode 0 false (rev (sq 20 80))]
              [sq 0 100; rev (sq 20 80)] [] [] = [(code_sibling_overlap, 1); (code_orientation_depth, 1)].
+Proof. vm_compute. reflexivity. Qed.
+
+Example fully_contains_ok :
+  fully_contains [mkTnode 0 false (sq 0 100); mkTnode 1 true (rev (sq 20 80)); mkTnode 2 false (sq 40 60)] = true.
+Proof. vm_compute. reflexivity. Qed.
+
+(* one vertex outside is tolerated, two in a row are not; a child outside a hole two levels down is found *)
+Example fully_contains_one_out :
+  fully_contains [mkTnode 0 false (sq 0 100); mkTnode 1 true [(20, 20); (20, 80); (80, 80); (120, 20)]] = true.
+Proof. vm_compute. reflexivity. Qed.
+
+Example fully_contains_bad :
+  fully_contains [mkTnode 0 false (sq 0 100); mkTnode 1 true (rev (sq 20 80)); mkTnode 2 false (sq 200 300)] = false.
 Proof. vm_compute. reflexivity. Qed.
